@@ -31,6 +31,7 @@ type recServer struct {
 	gets     int
 	nextSess int
 	sessions map[string]*legacySess
+	fault    *faultPlan // armed while an Initialize step of mode "fault" runs (faults.go)
 }
 
 type legacySess struct {
@@ -211,6 +212,9 @@ func scriptedAnswer(mode string, variant int, h rpcHead) string {
 }
 
 func (s *recServer) serve(w http.ResponseWriter, r *http.Request) {
+	if s.faultBeforeRead(w, r) {
+		return
+	}
 	body, _ := io.ReadAll(r.Body)
 	var h rpcHead
 	_ = json.Unmarshal(body, &h)
@@ -220,6 +224,7 @@ func (s *recServer) serve(w http.ResponseWriter, r *http.Request) {
 	}
 	s.mu.Lock()
 	s.wire = append(s.wire, what)
+	wi := len(s.wire) - 1
 	if r.Method == http.MethodGet && !s.legacy {
 		s.gets++
 	}
@@ -240,6 +245,9 @@ func (s *recServer) serve(w http.ResponseWriter, r *http.Request) {
 			}
 		}
 		panic(http.ErrAbortHandler)
+	}
+	if s.faultAfterRead(w, r, h, variant, wi) {
+		return
 	}
 	if s.legacy {
 		s.serveLegacy(w, r, h, mode, variant)
